@@ -116,11 +116,14 @@ Example C16_example :
 Proof.
   split; [|repeat split; try (vm_compute; reflexivity)].
   - intros p g Hp W. unfold ex_pool in Hp. simpl in Hp.
-    destruct Hp as [<-|[<-|[<-|[]]]];
-      repeat match goal with
-             | H : writes _ _ |- _ => inversion H; clear H; subst
-             | H : writes (if ?b then _ else _) _ |- _ => destruct b
-             end.
+    destruct Hp as [<-|[<-|[<-|[]]]].
+    + inversion W as [| | |g0 k v g' W1]; subst. inversion W1 as [| |k g0 W2|]; subst. inversion W2.
+    + inversion W as [| |k g0 W1|]; subst. inversion W1 as [| |k g0 W2|]; subst.
+      inversion W2 as [| | |g0 k v g' W3]; subst.
+      destruct (N.eqb v 3).
+      * inversion W3 as [| | |g0 k w g' W4]; subst. inversion W4.
+      * inversion W3.
+    + inversion W.
   - simpl. apply Permutation_sym.
     apply (perm_trans (l' := [1; 0; 2])); [apply perm_swap|].
     apply (perm_trans (l' := [1; 2; 0])); [apply perm_skip; apply perm_swap|].
